@@ -46,3 +46,7 @@ check("C17", "Hypothesis (value with placeholders, pipeline of placeholder items
       "Values with 0-3 placeholders in string, keyword and regular-expression position under contains/startswith/endswith/all are pushed through pipelines of value-list, wildcard and query-expression items with include/exclude lists and variable tables (numbers, wrong types, missing). The decoded query must equal the reference expansion by truth table, or conversion must fail with a SigmaError naming the unresolved placeholder; no query may contain %name%.",
       "Trusted: vf/ref/modifiers.py for what a placeholder is; empty variables and regex-metacharacter insertion excluded.",
       "DESIGN.md section 3, C17")
+check("C16", "Hypothesis grammar of pipeline documents with injected opt-in keys x caller/environment settings x vars path classes; audit-hook oracle (sys.addaudithook) with positive control",
+      "Every gated item type at nesting depth 0-3 with truthy opt-in keys injected at every level, loaded through from_yaml, from_dict and the resolver and used for a conversion, is observed through CPython audit events: without caller opt-in or environment variable no process, socket, source-file or vars-file event may occur and use must end in a Sigma(Security)Error; with allowed directories no vars file outside them (direct, symlinked, prefix-sharing) may be opened or executed. The same documents with opt-in must produce the events (monitor not blind).",
+      "Observation limited to audit events; loopback closed port for HTTP.",
+      "DESIGN.md section 3, C16")
